@@ -45,6 +45,7 @@ var classTable = [][2]string{
 	{"length mismatch!", "8"},
 	{"unable to checksum FV header", "9"},
 	{"header did not sum to 0", "a"},
+	{"free space is not erased", "b"},
 	{"no firmware volumes in BIOS Region", "50"},
 	{"BIOSRegion is not valid", "51"},
 	{"erase polarity mismatch", "52"},
